@@ -47,6 +47,8 @@ type Pattern struct {
 	Anch bool     `json:"anch"`
 	W    []string `json:"w"`
 	Caps []Cap    `json:"caps"`
+	Bad  bool     `json:"bad,omitempty"`  // C24: syntactically invalid regular expression
+	Long bool     `json:"long,omitempty"` // C24: longer than the configured limit
 }
 
 type Decl struct {
@@ -56,9 +58,9 @@ type Decl struct {
 	Ty     string   `json:"ty"`
 	Hidden bool     `json:"hidden"`
 	// attributes only used by the formatter profile (C23)
-	As      string    `json:"as,omitempty"`
-	Limit   int       `json:"limit,omitempty"`
-	Buckets []float64 `json:"buckets,omitempty"`
+	As      string     `json:"as,omitempty"`
+	Limit   int        `json:"limit,omitempty"`
+	Buckets [][2]int64 `json:"buckets,omitempty"`
 }
 
 type Deco struct {
@@ -90,7 +92,7 @@ func (l Line) Text() string {
 // Regex renders a pattern of the model as the RE2 text the model's Match
 // operator stands for.
 func (p Pattern) Regex() string {
-	if len(p.W) == 0 && len(p.Caps) == 0 {
+	if len(p.W) == 0 && len(p.Caps) == 0 && !p.Bad && !p.Long {
 		return "$"
 	}
 	var b strings.Builder
@@ -113,6 +115,12 @@ func (p Pattern) Regex() string {
 	}
 	b.WriteString(strings.Join(parts, " "))
 	b.WriteString("(?: |$)")
+	if p.Bad {
+		b.WriteString("(x")
+	}
+	if p.Long {
+		b.WriteString(strings.Repeat("a?", 600))
+	}
 	return b.String()
 }
 
@@ -120,6 +128,7 @@ func (p Pattern) Regex() string {
 type RenderOpts struct {
 	FullParens bool // parenthesise every non-primary operand (else: minimal, by parser.y precedence)
 	CommaIndex bool // m[a, b] instead of m[a][b]
+	SplitPats  bool // render patterns as concatenations, some through const fragments (C23)
 }
 
 // precedence levels of parser.y, low to high
@@ -216,7 +225,30 @@ func (r *renderer) expr(n *Node) string {
 	case "var":
 		return r.index(n.M, n.Idx)
 	case "pat":
-		return "/" + strings.ReplaceAll(r.p.Pats[n.P-1].Regex(), "/", `\/`) + "/"
+		re := r.p.Pats[n.P-1].Regex()
+		if r.o.SplitPats && len(re) > 8 {
+			k := strings.Index(re, ") (")
+			if k < 0 {
+				k = len(re) / 2
+				for k > 0 && re[k-1] == '\\' {
+					k--
+				}
+				// never split inside a group or an escape
+				if strings.Count(re[:k], "(") != strings.Count(re[:k], ")") {
+					k = 0
+				}
+			} else {
+				k++
+			}
+			if k > 0 {
+				a, b := re[:k], re[k:]
+				if n.P%2 == 0 {
+					return "/" + strings.ReplaceAll(a, "/", `\/`) + "/ + FRAG" + strconv.Itoa(n.P)
+				}
+				return "/" + strings.ReplaceAll(a, "/", `\/`) + "/ + /" + strings.ReplaceAll(b, "/", `\/`) + "/"
+			}
+		}
+		return "/" + strings.ReplaceAll(re, "/", `\/`) + "/"
 	case "smatch":
 		re := regexp.QuoteMeta(strings.Join(n.S, ""))
 		if n.A {
@@ -347,7 +379,7 @@ func Render(p *Program, o RenderOpts) (string, error) {
 		if len(d.Buckets) > 0 {
 			bs := make([]string, len(d.Buckets))
 			for i, x := range d.Buckets {
-				bs[i] = strconv.FormatFloat(x, 'f', -1, 64)
+				bs[i] = strconv.FormatFloat(float64(x[0])/float64(x[1]), 'f', -1, 64)
 			}
 			b.WriteString(" buckets " + strings.Join(bs, ", "))
 		}
@@ -355,6 +387,49 @@ func Render(p *Program, o RenderOpts) (string, error) {
 			b.WriteString(" limit " + strconv.Itoa(d.Limit))
 		}
 		b.WriteString("\n")
+	}
+	if o.SplitPats {
+		used := map[int]bool{}
+		var walk func(ns []*Node)
+		walk = func(ns []*Node) {
+			for _, n := range ns {
+				if n == nil {
+					continue
+				}
+				if n.N == "pat" {
+					used[n.P] = true
+				}
+				walk([]*Node{n.C, n.L, n.R})
+				walk(n.T)
+				walk(n.E)
+				walk(n.Idx)
+				walk(n.Args)
+			}
+		}
+		walk(p.Body)
+		for _, d := range p.Decos {
+			walk(d.Body)
+		}
+		for i, pt := range p.Pats {
+			re := pt.Regex()
+			if (i+1)%2 == 0 && len(re) > 8 && used[i+1] {
+				k := strings.Index(re, ") (")
+				if k < 0 {
+					k = len(re) / 2
+					for k > 0 && re[k-1] == '\\' {
+						k--
+					}
+					if strings.Count(re[:k], "(") != strings.Count(re[:k], ")") {
+						k = 0
+					}
+				} else {
+					k++
+				}
+				if k > 0 {
+					b.WriteString("const FRAG" + strconv.Itoa(i+1) + " /" + strings.ReplaceAll(re[k:], "/", `\/`) + "/\n")
+				}
+			}
+		}
 	}
 	r.block(&b, p.Pre, "")
 	for _, d := range p.Decos {
